@@ -143,6 +143,9 @@ def exercise(ctx, exe=None, tier=None, label="", extra_env=None, timeout=3000):
     p = ctx.last_harness
     begins = [l for l in lines if l.get("kind") == "begin"]
     fatal = None
+    if p.returncode != 0 and not begins:
+        # died before any batch was released (fixture missing, chdir failed ...): the machinery could not run, not a verdict
+        raise ck.Abort("C16 harness failed during set-up (%d):\n%s" % (p.returncode, (p.stderr or "")[-4000:]))
     if p.returncode != 0:
         err = p.stderr or ""
         m = re.search(r"(?m)^(fatal error: .*|panic: .*|WARNING: DATA RACE.*)$", err)
